@@ -25,6 +25,14 @@ def env5 : Env Nat where
   uring := fun _ => { F := primeOps 5, varName := "X", modulus := none }
   bring := fun _ => { F := primeOps 5, ord := ⟨.lex, true⟩, varNames := ("X", "Y"), ideal := none }
 
+/-- a concrete store for the non-vacuity examples: a clean, an erroneous and a foreign element;
+    a clean and an erroneous polynomial of each sort -/
+def sErr : St Nat :=
+  { es := [(0, { home := 0, val := 2 }), (1, { home := 0, val := 0, err := .kind .inputValue }),
+           (2, { home := 0, val := 0, foreign := true })],
+    us := [(0, { home := 0, val := [1, 1] }), (1, { home := 0, val := [], err := .kind .arithmeticIncompat })],
+    bs := [(0, { home := 0, val := [((1, 0), 1)] }), (1, { home := 0, val := [], err := .kind .arithmeticIncompat })] }
+
 /-! ### association lists -/
 namespace St
 variable {β : Type}
@@ -345,6 +353,12 @@ theorem runOps_frame (s : St α) (ops : List Op) :
     simp only [runOps, List.flatMap_cons, List.any_cons]
     exact St.Frame.trans (step_frame' env desc s op) (ih _)
 
+/-- erroneous objects are reachable: `Inv` of zero, `Plus` across rings -/
+example : (eGet env5 (runOps env5 (.prime 5) {} [.eCtor 0 0 "zero" "", .eUn 1 "inv" 0]).1 1).err
+    = .kind .inputValue := by decide
+example : (uGet env5 (runOps env5 (.prime 5) {}
+    [.uCtor 0 0 "one" "", .uCtor 1 2 "one" "", .uBin 2 "plus" 0 1]).1 2).err = .kind .arithmeticIncompat := by decide
+
 end hist
 
 /-! ### table presence is invisible to every other operation -/
@@ -541,6 +555,21 @@ theorem eProdFn_recv_err (a b c : EReg α) (bIsA cIsA : Bool) (ha : a.err.isErr 
         · exact .inl ha
         · exact .inl ha
 
+/-- all checks pass: the receiver gets the new value and is returned -/
+theorem eInPlace_ok (op : String) (a b : EReg α) (hb : b.foreign = false) (ha : a.err.isErr = false)
+    (hbe : b.err.isErr = false) (hh : a.home = b.home) :
+    eInPlace env op a b =
+      (let r : EReg α := { a with val := eBinFn (fld env a.home) op a.val b.val }
+       (r, r, true)) := by
+  simp [eInPlace, eCheck, hb, ha, hbe, hh]
+
+theorem eProdFn_ok (a b c : EReg α) (bIsA cIsA : Bool) (hb : b.foreign = false) (hc : c.foreign = false)
+    (hbe : b.err.isErr = false) (hce : c.err.isErr = false) (hh : b.home = c.home) :
+    eProdFn env a b c bIsA cIsA =
+      (let r : EReg α := { a with home := b.home, val := (fld env b.home).mul b.val c.val }
+       (r, r, true)) := by
+  simp [eProdFn, hb, hc, hbe, hce, hh]
+
 /-! explicit `step` equations (all by `rfl`): the objects computed by the element operations -/
 
 /-- `(new receiver, returned object, returned-is-receiver)` of `a.Copy().Op(b)` -/
@@ -607,4 +636,765 @@ theorem step_eSetU (desc : FieldDesc) (s : St α) (a n : Nat) :
          ({ s with es := St.setL s.es a r }, ret true (showE env r))) := rfl
 
 end elem
+
+/-! ### univariate polynomials: checks, results, `step` equations -/
+section upoly
+variable {α : Type} (env : Env α)
+
+theorem UReg.with_err_self (a : UReg α) (h : a.err.isErr = true) :
+    ({ a with err := a.err.wrapInherit } : UReg α) = a := by
+  rw [Err.wrapInherit_of_isErr h]
+
+theorem uCheck_recvErr (f : UReg α) (gs : List (UReg α)) (h : f.err.isErr = true) :
+    uCheck env f gs = some (f, true) := by
+  simp only [uCheck, h, if_true, UReg.with_err_self f h]
+
+theorem uCheck_argErr (f b : UReg α) (h : f.err.isErr = false) (hb : b.err.isErr = true) :
+    uCheck env f [b] = some (b, false) := by
+  simp only [uCheck, h, Bool.false_eq_true, if_false, List.find?_cons, hb, UReg.with_err_self b hb]
+
+theorem uCheck_ok (f b : UReg α) (h : f.err.isErr = false) (hb : b.err.isErr = false) (hh : b.home = f.home) :
+    uCheck env f [b] = none := by
+  simp [uCheck, h, hb, hh]
+
+theorem uInPlace_recvErr (op : String) (a b : UReg α) (h : a.err.isErr = true) :
+    uInPlace env op a b = (a, a, true) := by
+  simp only [uInPlace, uCheck_recvErr env a [b] h]
+
+theorem uInPlace_argErr (op : String) (a b : UReg α) (h : a.err.isErr = false) (hb : b.err.isErr = true) :
+    uInPlace env op a b = (a, b, false) := by
+  simp only [uInPlace, uCheck_argErr env a b h hb]
+
+theorem uInPlace_ok (op : String) (a b : UReg α) (h : a.err.isErr = false) (hb : b.err.isErr = false)
+    (hh : b.home = a.home) :
+    uInPlace env op a b =
+      (let r : UReg α := { a with val := if op == "add" || op == "plus" then UPoly.add (F0 env) a.val b.val
+                                         else UPoly.sub (F0 env) a.val b.val }
+       (r, r, true)) := by
+  simp only [uInPlace, uCheck_ok env a b h hb hh]
+
+theorem uTimes_recvErr (a b : UReg α) (h : a.err.isErr = true) : uTimes env a b = a := by
+  simp only [uTimes, uCheck_recvErr env a [b] h]
+
+theorem uTimes_argErr (a b : UReg α) (h : a.err.isErr = false) (hb : b.err.isErr = true) :
+    uTimes env a b = b := by
+  simp only [uTimes, uCheck_argErr env a b h hb]
+
+def uBinRes (s : St α) (op : String) (a b : Nat) : UReg α :=
+  if op == "times" then uTimes env (uGet env s a) (uGet env s b)
+  else (uInPlace env op (uGet env s a) (uGet env s b)).2.1
+
+theorem step_uBin (desc : FieldDesc) (s : St α) (dst : Nat) (op : String) (a b : Nat) :
+    step env desc s (.uBin dst op a b)
+      = ({ s with us := St.setL s.us dst (uBinRes env s op a b) }, "ok " ++ showU env (uBinRes env s op a b)) := rfl
+
+def uUnRes (s : St α) (op : String) (a : Nat) : UReg α :=
+  let ra := uGet env s a
+  let F := F0 env
+  if op == "copy" then ra
+  else if op == "neg" then { ra with val := UPoly.neg F ra.val }
+  else if op == "normalize" then { ra with val := UPoly.normalize F ra.val }
+  else { home := ra.home, val := UPoly.lt F ra.val }
+
+theorem step_uUn (desc : FieldDesc) (s : St α) (dst : Nat) (op : String) (a : Nat) :
+    step env desc s (.uUn dst op a)
+      = ({ s with us := St.setL s.us dst (uUnRes env s op a) }, "ok " ++ showU env (uUnRes env s op a)) := rfl
+
+/-- the polynomial computed by `Scale` / `SetScale` -/
+def uScaleRes (s : St α) (a e : Nat) : UReg α :=
+  let ra := uGet env s a; let re := eGet env s e
+  match scalarEffect env re with
+  | some true => { ra with val := UPoly.scale (F0 env) ra.val re.val }
+  | some false => { ra with val := UPoly.zero (F0 env) }
+  | none => ra
+
+theorem step_uScale (desc : FieldDesc) (s : St α) (dst a e : Nat) :
+    step env desc s (.uScale dst a e)
+      = ({ s with us := St.setL s.us dst (uScaleRes env s a e) }, "ok " ++ showU env (uScaleRes env s a e)) := rfl
+
+theorem step_uSetScale (desc : FieldDesc) (s : St α) (a e : Nat) :
+    step env desc s (.uSetScale a e)
+      = ({ s with us := St.setL s.us a (uScaleRes env s a e) }, "recv " ++ showU env (uScaleRes env s a e)) := rfl
+
+theorem uScaleRes_err (s : St α) (a e : Nat) : (uScaleRes env s a e).err = (uGet env s a).err := by
+  simp only [uScaleRes]
+  split <;> rfl
+
+def uPowRes (s : St α) (a n : Nat) : UReg α :=
+  let ra := uGet env s a
+  if ra.err.isErr then { ra with err := ra.err.wrapInherit }
+  else match UPoly.pow (uring env ra.home) ra.val n with
+    | some v => { ra with val := v }
+    | none => { ra with err := .kind .internal }
+
+theorem step_uPow (desc : FieldDesc) (s : St α) (dst a n : Nat) :
+    step env desc s (.uPow dst a n)
+      = ({ s with us := St.setL s.us dst (uPowRes env s a n) }, "ok " ++ showU env (uPowRes env s a n)) := rfl
+
+/-- `(new receiver, returned object, returned-is-receiver)` of the in-place `Add`/`Sub`/`Mult` -/
+def uInRes (s : St α) (op : String) (a b : Nat) : UReg α × UReg α × Bool :=
+  if op == "mult" then
+    let r := uTimes env (uGet env s a) (uGet env s b)
+    (r, r, true)
+  else uInPlace env op (uGet env s a) (uGet env s b)
+
+theorem step_uIn (desc : FieldDesc) (s : St α) (op : String) (a b : Nat) :
+    step env desc s (.uIn op a b)
+      = ({ s with us := St.setL s.us a (uInRes env s op a b).1 },
+         ret (uInRes env s op a b).2.2 (showU env (uInRes env s op a b).2.1)) := by
+  unfold uInRes
+  by_cases h : (op == "mult") = true
+  · simp only [h, if_true]
+    show (match stepE env s (.uIn op a b) with | some r => r | none => match stepU env s (.uIn op a b) with | some r => r | none => _) = _
+    simp only [stepE, stepU, h, if_true]
+  · simp only [h, Bool.false_eq_true, if_false]
+    show (match stepE env s (.uIn op a b) with | some r => r | none => match stepU env s (.uIn op a b) with | some r => r | none => _) = _
+    simp only [stepE, stepU, h, Bool.false_eq_true, if_false]
+
+theorem step_uSetNeg (desc : FieldDesc) (s : St α) (a : Nat) :
+    step env desc s (.uSetNeg a)
+      = (let ra := uGet env s a
+         let r : UReg α := { ra with val := UPoly.neg (F0 env) ra.val }
+         ({ s with us := St.setL s.us a r }, "recv " ++ showU env r)) := rfl
+
+theorem step_uSetZero (desc : FieldDesc) (s : St α) (a : Nat) :
+    step env desc s (.uSetZero a)
+      = (let ra := uGet env s a
+         let r : UReg α := { ra with val := UPoly.zero (F0 env) }
+         ({ s with us := St.setL s.us a r }, "recv " ++ showU env r)) := rfl
+
+theorem step_uSetCoef (desc : FieldDesc) (s : St α) (op : String) (a d e : Nat) :
+    step env desc s (.uSetCoef op a d e)
+      = (let ra := uGet env s a; let re := eGet env s e
+         let F := F0 env
+         let v := if op == "set" then UPoly.setCoef F ra.val d re.val
+                  else if op == "inc" then UPoly.incCoef F ra.val d re.val
+                  else UPoly.decCoef F ra.val d re.val
+         let r : UReg α := { ra with val := v }
+         ({ s with us := St.setL s.us a r }, "recv " ++ showU env r)) := rfl
+
+end upoly
+
+/-! ### bivariate polynomials: checks, results, `step` equations -/
+section bpoly
+variable {α : Type} (env : Env α)
+
+theorem BReg.with_err_self (a : BReg α) (h : a.err.isErr = true) :
+    ({ a with err := a.err.wrapInherit } : BReg α) = a := by
+  rw [Err.wrapInherit_of_isErr h]
+
+theorem bCheck_recvErr (f : BReg α) (gs : List (BReg α)) (h : f.err.isErr = true) :
+    bCheck f gs = some (f, true) := by
+  simp only [bCheck, h, if_true, BReg.with_err_self f h]
+
+theorem bCheck_argErr (f b : BReg α) (h : f.err.isErr = false) (hb : b.err.isErr = true) :
+    bCheck f [b] = some (b, false) := by
+  simp only [bCheck, h, Bool.false_eq_true, if_false, List.find?_cons, hb, BReg.with_err_self b hb]
+
+theorem bCheck_ok (f b : BReg α) (h : f.err.isErr = false) (hb : b.err.isErr = false) (hh : b.home = f.home) :
+    bCheck f [b] = none := by
+  simp [bCheck, h, hb, hh]
+
+theorem bInPlace_recvErr (op : String) (a b : BReg α) (h : a.err.isErr = true) :
+    bInPlace env op a b = (a, a, true) := by
+  simp only [bInPlace, bCheck_recvErr a [b] h]
+
+theorem bInPlace_argErr (op : String) (a b : BReg α) (h : a.err.isErr = false) (hb : b.err.isErr = true) :
+    bInPlace env op a b = (a, b, false) := by
+  simp only [bInPlace, bCheck_argErr a b h hb]
+
+theorem bInPlace_ok (op : String) (a b : BReg α) (h : a.err.isErr = false) (hb : b.err.isErr = false)
+    (hh : b.home = a.home) :
+    bInPlace env op a b =
+      (let r : BReg α := { a with val := if op == "add" || op == "plus" then BPoly.add (F0 env) a.val b.val
+                                         else BPoly.sub (F0 env) a.val b.val }
+       (r, r, true)) := by
+  simp only [bInPlace, bCheck_ok a b h hb hh]
+
+theorem bTimes_recvErr (a b : BReg α) (h : a.err.isErr = true) : bTimes env a b = a := by
+  simp only [bTimes, bCheck_recvErr a [b] h]
+
+theorem bTimes_argErr (a b : BReg α) (h : a.err.isErr = false) (hb : b.err.isErr = true) :
+    bTimes env a b = b := by
+  simp only [bTimes, bCheck_argErr a b h hb]
+
+def bBinRes (s : St α) (op : String) (a b : Nat) : BReg α :=
+  if op == "times" then bTimes env (bGet s a) (bGet s b)
+  else (bInPlace env op (bGet s a) (bGet s b)).2.1
+
+theorem step_bBin (desc : FieldDesc) (s : St α) (dst : Nat) (op : String) (a b : Nat) :
+    step env desc s (.bBin dst op a b)
+      = ({ s with bs := St.setL s.bs dst (bBinRes env s op a b) }, "ok " ++ showB env (bBinRes env s op a b)) := rfl
+
+def bUnRes (s : St α) (op : String) (a : Nat) : BReg α :=
+  let ra := bGet s a
+  let F := F0 env
+  let o := bord env ra.home
+  if op == "copy" then ra
+  else if op == "neg" then { ra with val := BPoly.neg F ra.val }
+  else if op == "normalize" then { ra with val := BPoly.normalize F o ra.val }
+  else { home := ra.home, val := BPoly.lt F o ra.val }
+
+theorem step_bUn (desc : FieldDesc) (s : St α) (dst : Nat) (op : String) (a : Nat) :
+    step env desc s (.bUn dst op a)
+      = ({ s with bs := St.setL s.bs dst (bUnRes env s op a) }, "ok " ++ showB env (bUnRes env s op a)) := rfl
+
+def bScaleRes (s : St α) (a e : Nat) : BReg α :=
+  let ra := bGet s a; let re := eGet env s e
+  let F := F0 env
+  match scalarEffect env re with
+  | none => ra
+  | some false => { ra with val := [] }
+  | some true => if F.isZero re.val then { ra with val := [] } else { ra with val := BPoly.scale F ra.val re.val }
+
+theorem step_bScale (desc : FieldDesc) (s : St α) (dst a e : Nat) :
+    step env desc s (.bScale dst a e)
+      = ({ s with bs := St.setL s.bs dst (bScaleRes env s a e) }, "ok " ++ showB env (bScaleRes env s a e)) := rfl
+
+theorem bScaleRes_err (s : St α) (a e : Nat) : (bScaleRes env s a e).err = (bGet s a).err := by
+  simp only [bScaleRes]
+  split
+  · rfl
+  · rfl
+  · split <;> rfl
+
+def bSetScaleRes (s : St α) (a e : Nat) : BReg α :=
+  let ra := bGet s a; let re := eGet env s e
+  match scalarEffect env re with
+  | some true => { ra with val := BPoly.scale (F0 env) ra.val re.val }
+  | some false => { ra with val := [] }
+  | none => ra
+
+theorem step_bSetScale (desc : FieldDesc) (s : St α) (a e : Nat) :
+    step env desc s (.bSetScale a e)
+      = ({ s with bs := St.setL s.bs a (bSetScaleRes env s a e) }, "recv " ++ showB env (bSetScaleRes env s a e)) := rfl
+
+theorem bSetScaleRes_err (s : St α) (a e : Nat) : (bSetScaleRes env s a e).err = (bGet s a).err := by
+  simp only [bSetScaleRes]
+  split <;> rfl
+
+def bPowRes (s : St α) (a n : Nat) : BReg α :=
+  let ra := bGet s a
+  if ra.err.isErr then { ra with err := ra.err.wrapInherit }
+  else match BPoly.pow (bring env ra.home) ra.val n with
+    | .ok (some v) => { ra with val := v }
+    | .ok none => { ra with err := .kind .internal }
+    | .error k => { home := ra.home, val := [], err := .kind k }
+
+theorem step_bPow (desc : FieldDesc) (s : St α) (dst a n : Nat) :
+    step env desc s (.bPow dst a n)
+      = ({ s with bs := St.setL s.bs dst (bPowRes env s a n) }, "ok " ++ showB env (bPowRes env s a n)) := rfl
+
+def bInRes (s : St α) (op : String) (a b : Nat) : BReg α × BReg α × Bool :=
+  if op == "mult" then
+    let r := bTimes env (bGet s a) (bGet s b)
+    (r, r, true)
+  else bInPlace env op (bGet s a) (bGet s b)
+
+theorem step_bIn (desc : FieldDesc) (s : St α) (op : String) (a b : Nat) :
+    step env desc s (.bIn op a b)
+      = ({ s with bs := St.setL s.bs a (bInRes env s op a b).1 },
+         ret (bInRes env s op a b).2.2 (showB env (bInRes env s op a b).2.1)) := by
+  unfold bInRes
+  by_cases h : (op == "mult") = true
+  · simp only [h, if_true]
+    show (match stepE env s (.bIn op a b) with | some r => r | none => match stepU env s (.bIn op a b) with
+      | some r => r | none => match stepB env s (.bIn op a b) with | some r => r | none => _) = _
+    simp only [stepE, stepU, stepB, h, if_true]
+  · simp only [h, Bool.false_eq_true, if_false]
+    show (match stepE env s (.bIn op a b) with | some r => r | none => match stepU env s (.bIn op a b) with
+      | some r => r | none => match stepB env s (.bIn op a b) with | some r => r | none => _) = _
+    simp only [stepE, stepU, stepB, h, Bool.false_eq_true, if_false]
+
+theorem step_bSetCoef (desc : FieldDesc) (s : St α) (op : String) (a : Nat) (d : Deg) (e : Nat) :
+    step env desc s (.bSetCoef op a d e)
+      = (let ra := bGet s a; let re := eGet env s e
+         let F := F0 env
+         let v := if op == "set" then BPoly.setCoef F ra.val d re.val
+                  else if op == "inc" then BPoly.incCoef F ra.val d re.val
+                  else BPoly.decCoef F ra.val d re.val
+         let r : BReg α := { ra with val := v }
+         ({ s with bs := St.setL s.bs a r }, "recv " ++ showB env r)) := rfl
+
+end bpoly
+
+/-! ### value-returning operations read before they write -/
+
+/-- what a single-destination operation writes: nothing, or one register of some sort -/
+inductive Wr (α : Type) where
+  | none
+  | e (r : EReg α)
+  | u (r : UReg α)
+  | b (r : BReg α)
+  | i (r : BPoly.Ideal α)
+
+def St.write {α : Type} (s : St α) (d : Nat) : Wr α → St α
+  | .none => s
+  | .e r => { s with es := St.setL s.es d r }
+  | .u r => { s with us := St.setL s.us d r }
+  | .b r => { s with bs := St.setL s.bs d r }
+  | .i r => { s with ids := St.setL s.ids d r }
+
+/-- value-returning operations with one destination register (constructors included) -/
+def Op.isValue : Op → Bool
+  | .eCtor .. | .eBin .. | .eUn .. | .ePow .. => true
+  | .uCtor .. | .uBin .. | .uUn .. | .uScale .. | .uPow .. | .uEval .. | .uCoef .. | .uLc .. => true
+  | .uGcd .. | .uInterp .. => true
+  | .bCtor .. | .bBin .. | .bUn .. | .bScale .. | .bPow .. | .bEval .. | .bCoef .. | .bLc .. => true
+  | .bRem .. | .bInterp .. => true
+  | .iNew .. | .iCopy .. | .iGroebner .. => true
+  | _ => false
+
+/-- the same operation with another destination register -/
+def Op.withDst : Op → Nat → Op
+  | .eCtor _ f how arg, d => .eCtor d f how arg
+  | .eBin _ op a b, d => .eBin d op a b
+  | .eUn _ op a, d => .eUn d op a
+  | .ePow _ a n, d => .ePow d a n
+  | .uCtor _ r how arg, d => .uCtor d r how arg
+  | .uBin _ op a b, d => .uBin d op a b
+  | .uUn _ op a, d => .uUn d op a
+  | .uScale _ a e, d => .uScale d a e
+  | .uPow _ a n, d => .uPow d a n
+  | .uEval _ a e, d => .uEval d a e
+  | .uCoef _ a k, d => .uCoef d a k
+  | .uLc _ a, d => .uLc d a
+  | .uGcd _ gs, d => .uGcd d gs
+  | .uInterp _ r p v, d => .uInterp d r p v
+  | .bCtor _ r how arg, d => .bCtor d r how arg
+  | .bBin _ op a b, d => .bBin d op a b
+  | .bUn _ op a, d => .bUn d op a
+  | .bScale _ a e, d => .bScale d a e
+  | .bPow _ a n, d => .bPow d a n
+  | .bEval _ a x y, d => .bEval d a x y
+  | .bCoef _ a k, d => .bCoef d a k
+  | .bLc _ a, d => .bLc d a
+  | .bRem _ a gs, d => .bRem d a gs
+  | .bInterp _ r x y v, d => .bInterp d r x y v
+  | .iNew _ r gs, d => .iNew d r gs
+  | .iCopy _ a, d => .iCopy d a
+  | .iGroebner _ a, d => .iGroebner d a
+  | op, _ => op
+
+/-- the destination register of a value-returning operation -/
+def Op.dst : Op → Nat
+  | .eCtor d .. | .eBin d .. | .eUn d .. | .ePow d .. => d
+  | .uCtor d .. | .uBin d .. | .uUn d .. | .uScale d .. | .uPow d .. | .uEval d .. | .uCoef d .. | .uLc d .. => d
+  | .uGcd d .. | .uInterp d .. => d
+  | .bCtor d .. | .bBin d .. | .bUn d .. | .bScale d .. | .bPow d .. | .bEval d .. | .bCoef d .. | .bLc d .. => d
+  | .bRem d .. | .bInterp d .. => d
+  | .iNew d .. | .iCopy d .. | .iGroebner d .. => d
+  | _ => 0
+
+theorem Op.withDst_dst (op : Op) : op.withDst op.dst = op := by cases op <;> rfl
+
+section dst
+variable {α : Type} (env : Env α)
+
+/-- leaf of the case analysis: the written value and the reply do not depend on the destination -/
+macro "dst_leaf" : tactic => `(tactic| first
+  | exact ⟨.e _, fun _ => rfl⟩
+  | exact ⟨.u _, fun _ => rfl⟩
+  | exact ⟨.b _, fun _ => rfl⟩
+  | exact ⟨.i _, fun _ => rfl⟩
+  | exact ⟨.none, fun _ => rfl⟩
+  | (refine ⟨?_, fun d' => ?_⟩
+     rotate_left
+     simp -zeta only [Op.withDst, stepE, stepU, stepB]
+     try extract_lets
+     simp only [*, if_true, if_false, ↓reduceIte, Bool.false_eq_true, not_true_eq_false, not_false_eq_true,
+       Option.bind_some, Option.bind_none]
+     first
+      | exact (rfl : _ = some (St.write _ _ (.e _), _))
+      | exact (rfl : _ = some (St.write _ _ (.u _), _))
+      | exact (rfl : _ = some (St.write _ _ (.b _), _))
+      | exact (rfl : _ = some (St.write _ _ (.i _), _))
+      | exact (rfl : _ = some (St.write _ _ .none, _))))
+
+macro "dst_auto" h:ident : tactic => `(tactic| (
+  simp -zeta only [stepE, stepU, stepB] at $h:ident
+  try extract_lets at $h:ident
+  repeat' (first
+    | (cases $h:ident; done)
+    | (cases $h:ident; dst_leaf)
+    | split at $h:ident
+    | (simp only [Option.bind_eq_some_iff] at $h:ident; obtain ⟨_, hd, h'⟩ := $h; cases h'; dst_leaf)
+    | simp +zetaDelta only at $h:ident)))
+
+theorem stepE_dst (s : St α) (op : Op) (hv : op.isValue = true) (r : St α × String)
+    (h : stepE env s op = some r) :
+    ∃ w : Wr α, ∀ d', stepE env s (op.withDst d') = some (s.write d' w, r.2) := by
+  cases op <;> first | (cases hv; done) | dst_auto h
+
+theorem stepU_dst (s : St α) (op : Op) (hv : op.isValue = true) (r : St α × String)
+    (h : stepU env s op = some r) :
+    ∃ w : Wr α, ∀ d', stepU env s (op.withDst d') = some (s.write d' w, r.2) := by
+  cases op <;> first | (cases hv; done) | dst_auto h
+
+theorem stepB_dst (s : St α) (op : Op) (hv : op.isValue = true) (r : St α × String)
+    (h : stepB env s op = some r) :
+    ∃ w : Wr α, ∀ d', stepB env s (op.withDst d') = some (s.write d' w, r.2) := by
+  cases op <;> first | (cases hv; done) | dst_auto h
+
+macro "dstn_auto" h:ident : tactic => `(tactic| (
+  simp -zeta only [stepE, stepU, stepB, Option.bind_eq_match'] at $h:ident
+  try extract_lets at $h:ident
+  repeat' (first
+    | (cases $h:ident; done)
+    | split at $h:ident
+    | (simp -zeta only [Op.withDst, stepE, stepU, stepB]
+       try extract_lets
+       simp only [*, if_true, if_false, ↓reduceIte, Bool.false_eq_true, not_true_eq_false, not_false_eq_true,
+         Option.bind_some, Option.bind_none]
+       done)
+    | rfl
+    | simp +zetaDelta only at $h:ident)))
+
+theorem stepE_dst_none (s : St α) (op : Op) (d' : Nat) (h : stepE env s op = none) :
+    stepE env s (op.withDst d') = none := by
+  cases op <;> first | rfl | dstn_auto h
+
+theorem stepU_dst_none (s : St α) (op : Op) (d' : Nat) (h : stepU env s op = none) :
+    stepU env s (op.withDst d') = none := by
+  cases op <;> first | rfl | dstn_auto h
+
+theorem stepB_dst_none (s : St α) (op : Op) (d' : Nat) (h : stepB env s op = none) :
+    stepB env s (op.withDst d') = none := by
+  cases op <;> first | rfl | dstn_auto h
+
+theorem Op.withDst_isTables (op : Op) (d' : Nat) : (op.withDst d').isTables = op.isTables := by
+  cases op <;> rfl
+
+/-- C16-2 core: for a value-returning operation the written value `w` and the reply are computed from the
+    old store alone — they are the same whatever the destination register is (in particular when it
+    coincides with an operand register). -/
+theorem step_dst (desc : FieldDesc) (s : St α) (op : Op) (hv : op.isValue = true) :
+    ∃ (w : Wr α) (reply : String), ∀ d', step env desc s (op.withDst d') = (s.write d' w, reply) := by
+  have hT : ∀ d', stepT desc s (op.withDst d') = none := fun d' =>
+    stepT_eq_none desc s _ (by rw [Op.withDst_isTables]; cases op <;> first | rfl | cases hv)
+  cases hE : stepE env s op with
+  | some r =>
+    obtain ⟨w, hw⟩ := stepE_dst env s op hv r hE
+    exact ⟨w, r.2, fun d' => by unfold step; rw [hw d']⟩
+  | none =>
+    cases hU : stepU env s op with
+    | some r =>
+      obtain ⟨w, hw⟩ := stepU_dst env s op hv r hU
+      exact ⟨w, r.2, fun d' => by unfold step; rw [stepE_dst_none env s op d' hE, hw d']⟩
+    | none =>
+      cases hB : stepB env s op with
+      | some r =>
+        obtain ⟨w, hw⟩ := stepB_dst env s op hv r hB
+        exact ⟨w, r.2, fun d' => by
+          unfold step; rw [stepE_dst_none env s op d' hE, stepU_dst_none env s op d' hU, hw d']⟩
+      | none =>
+        exact ⟨.none, "bad-op", fun d' => by
+          unfold step
+          rw [stepE_dst_none env s op d' hE, stepU_dst_none env s op d' hU, stepB_dst_none env s op d' hB, hT d']
+          rfl⟩
+
+/-- multi-destination `QuoRem` (univariate): quotients, remainder and reply do not depend on `dsts` -/
+theorem step_uQuoRem_dsts (desc : FieldDesc) (s : St α) (a : Nat) (gs : List Nat) :
+    ∃ (o : Option (Nat × List (UPoly α))) (reply : String), ∀ dsts',
+      step env desc s (.uQuoRem dsts' a gs) =
+        (match o with
+          | none => s
+          | some (h, outs) =>
+            { s with us := (dsts'.zip outs).foldl (fun us (k, v) => St.setL us k { home := h, val := v }) s.us },
+         reply) := by
+  cases hC : uCheck env (uGet env s a) (gs.map (uGet env s)) with
+  | some p => exact ⟨none, "err " ++ toString p.1.err, fun d => by simp only [step, stepE, stepU, hC]⟩
+  | none =>
+    cases hQ : UPoly.quoRem (F0 env) (UPoly.quoRemFuel (uGet env s a).val) (uGet env s a).val
+        ((gs.map (uGet env s)).map (·.val)) with
+    | error k => exact ⟨none, "err " ++ toString k, fun d => by simp only [step, stepE, stepU, hC, hQ]⟩
+    | ok o =>
+      cases o with
+      | none => exact ⟨none, "fuel-exhausted", fun d => by simp only [step, stepE, stepU, hC, hQ]⟩
+      | some p =>
+        exact ⟨some ((uGet env s a).home, p.1 ++ [p.2]), "ok " ++ " ".intercalate ((p.1 ++ [p.2]).map (encU env)),
+          fun d => by simp only [step, stepE, stepU, hC, hQ]⟩
+
+theorem step_bQuoRem_dsts (desc : FieldDesc) (s : St α) (a : Nat) (gs : List Nat) :
+    ∃ (o : Option (Nat × List (BPoly α))) (reply : String), ∀ dsts',
+      step env desc s (.bQuoRem dsts' a gs) =
+        (match o with
+          | none => s
+          | some (h, outs) =>
+            { s with bs := (dsts'.zip outs).foldl (fun bs (k, v) => St.setL bs k { home := h, val := v }) s.bs },
+         reply) := by
+  cases hC : bCheck (bGet s a) (gs.map (bGet s)) with
+  | some p => exact ⟨none, "err " ++ toString p.1.err, fun d => by simp only [step, stepE, stepU, stepB, hC]⟩
+  | none =>
+    cases hQ : BPoly.quoRem (F0 env) (bord env (bGet s a).home) BPoly.divFuel none (bGet s a).val
+        ((gs.map (bGet s)).map (·.val)) with
+    | error k => exact ⟨none, "err " ++ toString k, fun d => by simp only [step, stepE, stepU, stepB, hC, hQ]⟩
+    | ok o =>
+      cases o with
+      | none => exact ⟨none, "fuel-exhausted", fun d => by simp only [step, stepE, stepU, stepB, hC, hQ]⟩
+      | some p =>
+        exact ⟨some ((bGet s a).home, p.1 ++ [p.2]),
+          "ok " ++ " ".intercalate ((p.1 ++ [p.2]).map (encB env (bord env (bGet s a).home))),
+          fun d => by simp only [step, stepE, stepU, stepB, hC, hQ]⟩
+
+/-- `Generators()` of an ideal: the polynomials handed out do not depend on the destination registers -/
+theorem step_iGens_dsts (desc : FieldDesc) (s : St α) (a : Nat) :
+    ∃ (outs : List (BPoly α)) (reply : String), ∀ dsts',
+      step env desc s (.iGens dsts' a) =
+        ({ s with bs := (dsts'.zip outs).foldl (fun bs (k, v) => St.setL bs k { home := 0, val := v }) s.bs },
+         reply) :=
+  ⟨(iGet s a).gens, "ok " ++ toString (iGet s a).gens.length, fun _ => rfl⟩
+
+end dst
+
+/-! ### taint: a register that holds an erroneous object -/
+
+def TaintedE {α : Type} (s : St α) (k : Nat) : Prop := ∃ r, St.getL s.es k = some r ∧ r.err.isErr = true
+def TaintedU {α : Type} (s : St α) (k : Nat) : Prop := ∃ r, St.getL s.us k = some r ∧ r.err.isErr = true
+def TaintedB {α : Type} (s : St α) (k : Nat) : Prop := ∃ r, St.getL s.bs k = some r ∧ r.err.isErr = true
+
+section taint
+variable {α : Type} (env : Env α)
+
+theorem eGet_of_getL {s : St α} {k : Nat} {r : EReg α} (h : St.getL s.es k = some r) : eGet env s k = r := by
+  simp only [eGet, h, Option.getD_some]
+theorem uGet_of_getL {s : St α} {k : Nat} {r : UReg α} (h : St.getL s.us k = some r) : uGet env s k = r := by
+  simp only [uGet, h, Option.getD_some]
+theorem bGet_of_getL {s : St α} {k : Nat} {r : BReg α} (h : St.getL s.bs k = some r) : bGet s k = r := by
+  simp only [bGet, h, Option.getD_some]
+
+theorem TaintedE.eGet {s : St α} {k : Nat} (h : TaintedE s k) : (eGet env s k).err.isErr = true := by
+  obtain ⟨r, hr, he⟩ := h; rw [eGet_of_getL env hr]; exact he
+theorem TaintedU.uGet {s : St α} {k : Nat} (h : TaintedU s k) : (uGet env s k).err.isErr = true := by
+  obtain ⟨r, hr, he⟩ := h; rw [uGet_of_getL env hr]; exact he
+theorem TaintedB.bGet {s : St α} {k : Nat} (h : TaintedB s k) : (bGet s k).err.isErr = true := by
+  obtain ⟨r, hr, he⟩ := h; rw [bGet_of_getL hr]; exact he
+
+theorem TaintedE.set (s : St α) (k : Nat) (r : EReg α) (h : r.err.isErr = true) :
+    TaintedE { s with es := St.setL s.es k r } k := ⟨r, St.getL_setL_same _ _ _, h⟩
+theorem TaintedU.set (s : St α) (k : Nat) (r : UReg α) (h : r.err.isErr = true) :
+    TaintedU { s with us := St.setL s.us k r } k := ⟨r, St.getL_setL_same _ _ _, h⟩
+theorem TaintedB.set (s : St α) (k : Nat) (r : BReg α) (h : r.err.isErr = true) :
+    TaintedB { s with bs := St.setL s.bs k r } k := ⟨r, St.getL_setL_same _ _ _, h⟩
+
+/-- an erroneous receiver of `Add`/`Sub` stays erroneous (a foreign argument even replaces the error) -/
+theorem eInPlace_recv_tainted (op : String) (a b : EReg α) (ha : a.err.isErr = true) :
+    (eInPlace env op a b).1.err.isErr = true := by
+  cases hb : b.foreign
+  · rw [eInPlace_recvErr env op a b hb ha]; exact ha
+  · simp only [eInPlace, eCheck, hb, if_true]; rfl
+
+theorem eProdFn_recv_tainted (a b c : EReg α) (bIsA cIsA : Bool) (ha : a.err.isErr = true)
+    (hb : bIsA = true → b = a) (hc : cIsA = true → c = a) :
+    (eProdFn env a b c bIsA cIsA).1.err.isErr = true := by
+  rcases eProdFn_recv_err env a b c bIsA cIsA ha with h | ⟨h, hh⟩ | ⟨h, hh⟩
+  · exact h
+  · rw [h, hb hh]; exact ha
+  · rw [h, hc hh]; exact ha
+
+theorem uReduce_err (r : UReg α) (h : r.err.isErr = true) : uReduce env r = r := by
+  simp only [uReduce, h, if_true]
+
+/-- in-place element operations never clear the error of their receiver -/
+theorem step_inPlace_taintE (desc : FieldDesc) (s : St α) (op : Op) (k : Nat) (hin : op.inPlace = true)
+    (hk : k ∈ op.writesE) (ht : TaintedE s k) : TaintedE (step env desc s op).1 k := by
+  have hg := ht.eGet env
+  cases op <;> first | (cases hin; done) | (cases hk; done) | skip
+  case eIn op a b =>
+    obtain rfl : k = a := by simpa [Op.writesE] using hk
+    rw [step_eIn]; apply TaintedE.set
+    unfold eInRes
+    split
+    · refine eProdFn_recv_tainted env _ _ _ _ _ hg (fun _ => rfl) (fun h => ?_)
+      have : k = b := by simpa using h
+      rw [this]
+    · exact eInPlace_recv_tainted env _ _ _ hg
+  case eProd a b c =>
+    obtain rfl : k = a := by simpa [Op.writesE] using hk
+    rw [step_eProd]; apply TaintedE.set
+    unfold eProdRes
+    refine eProdFn_recv_tainted env _ _ _ _ _ hg (fun h => ?_) (fun h => ?_)
+    · have : k = b := by simpa using h
+      rw [this]
+    · have : k = c := by simpa using h
+      rw [this]
+  case eSetNeg a =>
+    obtain rfl : k = a := by simpa [Op.writesE] using hk
+    rw [step_eSetNeg]; exact TaintedE.set _ _ _ hg
+  case eSetU a n =>
+    obtain rfl : k = a := by simpa [Op.writesE] using hk
+    rw [step_eSetU]; exact TaintedE.set _ _ _ hg
+
+def uEmbedRes (s : St α) (a ring : Nat) (reduce : Bool) : UReg α :=
+  let ra := uGet env s a
+  if reduce then uReduce env { ra with home := ring, err := if ra.err.isErr then ra.err.wrapInherit else .none }
+  else { ra with home := ring }
+
+theorem step_uEmbed (desc : FieldDesc) (s : St α) (a ring : Nat) (reduce : Bool) :
+    step env desc s (.uEmbed a ring reduce) =
+      if ((uGet env s a).home == 2) != (ring == 2) then (s, "err InputIncompatible")
+      else ({ s with us := St.setL s.us a (uEmbedRes env s a ring reduce) },
+            "ok " ++ showU env (uEmbedRes env s a ring reduce)) := by
+  by_cases h : (((uGet env s a).home == 2) != (ring == 2)) = true
+  · simp only [step, stepE, stepU, uEmbedRes, h, if_true]
+  · simp only [step, stepE, stepU, uEmbedRes, h, Bool.false_eq_true, if_false]
+
+theorem uInRes_recv_tainted (s : St α) (op : String) (a b : Nat) (ha : (uGet env s a).err.isErr = true) :
+    (uInRes env s op a b).1.err.isErr = true := by
+  unfold uInRes
+  split
+  · simp only [uTimes_recvErr env _ _ ha]; exact ha
+  · rw [uInPlace_recvErr env _ _ _ ha]; exact ha
+
+/-- in-place univariate operations (including `EmbedIn`) never clear the error of their receiver -/
+theorem step_inPlace_taintU (desc : FieldDesc) (s : St α) (op : Op) (k : Nat) (hin : op.inPlace = true)
+    (hk : k ∈ op.writesU) (ht : TaintedU s k) : TaintedU (step env desc s op).1 k := by
+  have hg := ht.uGet env
+  cases op <;> first | (cases hin; done) | (cases hk; done) | skip
+  case uIn op a b =>
+    obtain rfl : k = a := by simpa [Op.writesU] using hk
+    rw [step_uIn]; exact TaintedU.set _ _ _ (uInRes_recv_tainted env s op k b hg)
+  case uSetNeg a =>
+    obtain rfl : k = a := by simpa [Op.writesU] using hk
+    rw [step_uSetNeg]; exact TaintedU.set _ _ _ hg
+  case uSetScale a e =>
+    obtain rfl : k = a := by simpa [Op.writesU] using hk
+    rw [step_uSetScale]; exact TaintedU.set _ _ _ ((uScaleRes_err env s k e).symm ▸ hg)
+  case uSetCoef op a d e =>
+    obtain rfl : k = a := by simpa [Op.writesU] using hk
+    rw [step_uSetCoef]; exact TaintedU.set _ _ _ hg
+  case uSetZero a =>
+    obtain rfl : k = a := by simpa [Op.writesU] using hk
+    rw [step_uSetZero]; exact TaintedU.set _ _ _ hg
+  case uEmbed a ring reduce =>
+    obtain rfl : k = a := by simpa [Op.writesU] using hk
+    rw [step_uEmbed]
+    split
+    · exact ht
+    · apply TaintedU.set
+      unfold uEmbedRes
+      split
+      · rw [uReduce_err]
+        · simp only [hg, if_true]; exact Err.wrapInherit_isErr _
+        · simp only [hg, if_true]; exact Err.wrapInherit_isErr _
+      · exact hg
+
+theorem bInRes_recv_tainted (s : St α) (op : String) (a b : Nat) (ha : (bGet s a).err.isErr = true) :
+    (bInRes env s op a b).1.err.isErr = true := by
+  unfold bInRes
+  split
+  · simp only [bTimes_recvErr env _ _ ha]; exact ha
+  · rw [bInPlace_recvErr env _ _ _ ha]; exact ha
+
+/-- in-place bivariate operations never clear the error of their receiver -/
+theorem step_inPlace_taintB (desc : FieldDesc) (s : St α) (op : Op) (k : Nat) (hin : op.inPlace = true)
+    (hk : k ∈ op.writesB) (ht : TaintedB s k) : TaintedB (step env desc s op).1 k := by
+  have hg := ht.bGet
+  cases op <;> first | (cases hin; done) | (cases hk; done) | skip
+  case bIn op a b =>
+    obtain rfl : k = a := by simpa [Op.writesB] using hk
+    rw [step_bIn]; exact TaintedB.set _ _ _ (bInRes_recv_tainted env s op k b hg)
+  case bSetScale a e =>
+    obtain rfl : k = a := by simpa [Op.writesB] using hk
+    rw [step_bSetScale]; exact TaintedB.set _ _ _ ((bSetScaleRes_err env s k e).symm ▸ hg)
+  case bSetCoef op a d e =>
+    obtain rfl : k = a := by simpa [Op.writesB] using hk
+    rw [step_bSetCoef]; exact TaintedB.set _ _ _ hg
+
+end taint
+
+/-! ### covered value-returning operations: operands consulted, guards for error propagation -/
+
+/-- element registers whose error status the operation consults, in checking order -/
+def Op.readsE : Op → List Nat
+  | .eBin _ _ a b | .eIn _ a b => [a, b]
+  | .eUn _ _ a | .ePow _ a _ => [a]
+  | .eProd _ b c => [b, c]
+  | _ => []
+
+/-- univariate registers whose error status the operation consults (a scalar is never consulted) -/
+def Op.readsU : Op → List Nat
+  | .uBin _ _ a b | .uIn _ a b => [a, b]
+  | .uUn _ _ a | .uScale _ a _ | .uPow _ a _ => [a]
+  | _ => []
+
+def Op.readsB : Op → List Nat
+  | .bBin _ _ a b | .bIn _ a b => [a, b]
+  | .bUn _ _ a | .bScale _ a _ | .bPow _ a _ => [a]
+  | _ => []
+
+/-- guard under which a covered value-returning element operation stores an erroneous object in `dst` -/
+def Op.propagatesE {α : Type} (env : Env α) (s : St α) : Op → Prop
+  | .eBin _ op a b =>
+    ((op == "times") = true → (eGet env s a).foreign = false) ∧ (eGet env s b).foreign = false ∧
+    ((eGet env s a).err.isErr = true ∨ (eGet env s b).err.isErr = true)
+  | .eUn _ _ a | .ePow _ a _ => (eGet env s a).err.isErr = true
+  | _ => False
+
+def Op.propagatesU {α : Type} (env : Env α) (s : St α) : Op → Prop
+  | .uBin _ _ a b => (uGet env s a).err.isErr = true ∨ (uGet env s b).err.isErr = true
+  | .uUn _ op a => (op = "copy" ∨ op = "neg" ∨ op = "normalize") ∧ (uGet env s a).err.isErr = true
+  | .uScale _ a _ | .uPow _ a _ => (uGet env s a).err.isErr = true
+  | _ => False
+
+def Op.propagatesB {α : Type} (s : St α) : Op → Prop
+  | .bBin _ _ a b => (bGet s a).err.isErr = true ∨ (bGet s b).err.isErr = true
+  | .bUn _ op a => (op = "copy" ∨ op = "neg" ∨ op = "normalize") ∧ (bGet s a).err.isErr = true
+  | .bScale _ a _ | .bPow _ a _ => (bGet s a).err.isErr = true
+  | _ => False
+
+/-- C17-1 guard: a covered element operation (value-returning or in-place) consults an erroneous operand,
+    and no consulted operand is foreign -/
+def Op.stickyE {α : Type} (env : Env α) (s : St α) : Op → Prop
+  | .eBin _ op a b =>
+    ((op == "times") = true → (eGet env s a).foreign = false) ∧ (eGet env s b).foreign = false ∧
+    ((eGet env s a).err.isErr = true ∨ (eGet env s b).err.isErr = true)
+  | .eUn _ _ a | .ePow _ a _ => (eGet env s a).err.isErr = true
+  | .eIn op a b =>
+    ((op == "mult") = true → (eGet env s a).foreign = false) ∧ (eGet env s b).foreign = false ∧
+    ((eGet env s a).err.isErr = true ∨ (eGet env s b).err.isErr = true)
+  | .eProd _ b c =>
+    (eGet env s b).foreign = false ∧ (eGet env s c).foreign = false ∧
+    ((eGet env s b).err.isErr = true ∨ (eGet env s c).err.isErr = true)
+  | _ => False
+
+/-- C17-2 guard (univariate): a covered operation consults an erroneous polynomial (`lt` excluded) -/
+def Op.stickyU {α : Type} (env : Env α) (s : St α) : Op → Prop
+  | .uBin _ _ a b | .uIn _ a b => (uGet env s a).err.isErr = true ∨ (uGet env s b).err.isErr = true
+  | .uUn _ op a => (op = "copy" ∨ op = "neg" ∨ op = "normalize") ∧ (uGet env s a).err.isErr = true
+  | .uScale _ a _ | .uPow _ a _ => (uGet env s a).err.isErr = true
+  | _ => False
+
+def Op.stickyB {α : Type} (s : St α) : Op → Prop
+  | .bBin _ _ a b | .bIn _ a b => (bGet s a).err.isErr = true ∨ (bGet s b).err.isErr = true
+  | .bUn _ op a => (op = "copy" ∨ op = "neg" ∨ op = "normalize") ∧ (bGet s a).err.isErr = true
+  | .bScale _ a _ | .bPow _ a _ => (bGet s a).err.isErr = true
+  | _ => False
+
+theorem ret_eq (b : Bool) (x : String) : ret b x = (if b then "recv " else "other ") ++ x := rfl
+
+/-! ### success conditions of the in-place operations -/
+
+/-- The exact guard under which an in-place operation takes its normal path (receiver updated and
+    returned). `True` where the model returns the receiver unconditionally. -/
+def Op.recvOk {α : Type} (env : Env α) (s : St α) : Op → Prop
+  | .eIn op a b =>
+    ((op == "mult") = true → (eGet env s a).foreign = false) ∧ (eGet env s b).foreign = false ∧
+    (eGet env s a).err.isErr = false ∧ (eGet env s b).err.isErr = false ∧
+    (eGet env s a).home = (eGet env s b).home
+  | .eProd _ b c =>
+    (eGet env s b).foreign = false ∧ (eGet env s c).foreign = false ∧
+    (eGet env s b).err.isErr = false ∧ (eGet env s c).err.isErr = false ∧
+    (eGet env s b).home = (eGet env s c).home
+  | .eSetNeg _ | .eSetU .. => True
+  | .uIn op a b =>
+    (op == "mult") = true ∨
+    ((uGet env s a).err.isErr = false ∧ (uGet env s b).err.isErr = false ∧ (uGet env s b).home = (uGet env s a).home)
+  | .uSetNeg _ | .uSetScale .. | .uSetCoef .. | .uSetZero _ => True
+  | .bIn op a b =>
+    (op == "mult") = true ∨
+    ((bGet s a).err.isErr = false ∧ (bGet s b).err.isErr = false ∧ (bGet s b).home = (bGet s a).home)
+  | .bSetScale .. | .bSetCoef .. => True
+  | _ => False
+
 end Algobra
